@@ -127,4 +127,71 @@ change its element type and dimension: see `safety_table_changes` in Proofs/C02.
 def sameKind (a b : Ty) : Bool :=
   (a.level == 0 && b.level == 0 && a.major == b.major) || (a.level > 0 && b.level > 0)
 
+/-! ### run time: the safety flag of a symbol around the loops that iterate over it
+
+  blocc/statement_for.cpp `FORStatement::doit` (first pass): `data.safety_bak = vs.safety(); vs.safety(true);
+  ctx.stackControl(this, new RT(data));` — `finalizeControl`: `safety(_data->safety_bak)`.
+  blocc/statement_forall.cpp the same with `it_safety_bak` (a FORALL over an iterator whose flag is already set is refused
+  beforehand: EXC_RT_NOT_IMPLEMENTED, `forallRefused`).
+  blocc/context.cpp `unstackControl()` = finalizeControl of the top frame + pop: called once by the loop itself when it ends
+  normally, by `break`, or when a `return` travels through it; `onRuntimeError()` pops every frame of the failing unit.
+  The same discipline holds at parse time (`parse_clause`: flag set for the body, restored after it, also on a ParseError).
+  The interpreter model has no flags; this is the flag machine alone, driven by the loop events of a run. -/
+
+/-- a frame of the control stack: a loop over a variable remembers that variable's flag; a WHILE frame remembers nothing -/
+inductive Ctl
+  | loop (v : String) (bak : Bool)
+  | plain
+  deriving Repr, DecidableEq
+
+structure FlagSt where
+  flags : String → Bool
+  ctl : List Ctl
+
+inductive Ev
+  | enterFor (v : String)
+  | enterForall (v : String)
+  | enterWhile
+  | unstack                 -- normal end of a loop, `break`, a `return` passing through: one frame
+  | error (depth : Nat)     -- `Context::onRuntimeError`: every frame above `depth`
+  deriving Repr, DecidableEq
+
+def setFlag (f : String → Bool) (v : String) (b : Bool) : String → Bool := fun n => if n = v then b else f n
+
+/-- `finalizeControl` -/
+def finalize (f : String → Bool) : Ctl → String → Bool
+  | .loop v b => setFlag f v b
+  | .plain => f
+
+/-- `unstackControl` until `d` frames are left -/
+def unwindTo (d : Nat) : (String → Bool) → List Ctl → FlagSt
+  | f, [] => ⟨f, []⟩
+  | f, c :: r => if r.length + 1 ≤ d then ⟨f, c :: r⟩ else unwindTo d (finalize f c) r
+
+def step (s : FlagSt) : Ev → FlagSt
+  | .enterFor v | .enterForall v => ⟨setFlag s.flags v true, .loop v (s.flags v) :: s.ctl⟩
+  | .enterWhile => ⟨s.flags, .plain :: s.ctl⟩
+  | .unstack => match s.ctl with
+    | [] => s
+    | c :: r => ⟨finalize s.flags c, r⟩
+  | .error d => unwindTo d s.flags s.ctl
+
+def run (s : FlagSt) : List Ev → FlagSt
+  | [] => s
+  | e :: r => run (step s e) r
+
+/-- the events never pop a frame that was there before them -/
+def depthOk (d : Nat) (s : FlagSt) : List Ev → Bool
+  | [] => true
+  | e :: r => decide (d ≤ (step s e).ctl.length) && depthOk d (step s e) r
+
+/-- every symbol is created with its flag set iff its name carries the qualifier (`Context::registerSymbol`) -/
+def isDollar (n : String) : Bool := n.toList.head? == some '$'
+
+/-- the state between two units: no loop is running -/
+def unitStart : FlagSt := ⟨isDollar, []⟩
+
+/-- `FORALLStatement::doit` refuses an iterator whose flag is set -/
+def forallRefused (s : FlagSt) (v : String) : Bool := s.flags v
+
 end BlocV.Safety
